@@ -160,20 +160,24 @@ Section Advance.
   Fixpoint nodupb (l : list nat) : bool :=
     match l with [] => true | x :: t => negb (existsb (Nat.eqb x) t) && nodupb t end.
 
-  Fixpoint sorted_eps (eps : Qc) (l : list nat) : bool :=
+  (* consecutive entries non-increasing up to eps *)
+  Fixpoint sorted_eps (eps : Qc) (l : list mass) : bool :=
     match l with
-    | [] => true
-    | x :: t => forallb (fun y => mge_eps eps (cand x) (cand y)) t && sorted_eps eps t
+    | x :: ((y :: _) as t) => mge_eps eps x y && sorted_eps eps t
+    | _ => true
     end.
 
-  (* [choice] is an admissible answer of tot_probs_cand.topk(K) up to [eps] *)
+  (* [choice] is an admissible answer of tot_probs_cand.topk(K) up to [eps]: K distinct
+     in-range indices, values non-increasing, and nothing left out beats the last one *)
   Definition topk_ok (eps : Qc) (width : nat) (choice : list nat) : bool :=
+    let cs := map cand (seq 0 ncand) in
+    let vals := map (fun i => nth i cs NegInf) choice in
     Nat.eqb (length choice) (Kout width)
     && forallb (fun i => Nat.ltb i ncand) choice
     && nodupb choice
-    && sorted_eps eps choice
+    && sorted_eps eps vals
     && forallb (fun u => existsb (Nat.eqb u) choice
-                         || forallb (fun c => mge_eps eps (cand c) (cand u)) choice)
+                         || mge_eps eps (last vals NegInf) (nth u cs NegInf))
                (seq 0 ncand).
 End Advance.
 
@@ -283,7 +287,8 @@ Fixpoint auto_choices (V width : nat) fus lm (len t : nat)
   | [] => []
   | (nonext, blank) :: frames' =>
       let fr := mk_frame fus lm nonext blank bm in
-      let ch := topk_stable (cand V fr bm) (ncand V bm) (Kout V bm width) in
+      let cs := map (cand V fr bm) (seq 0 (ncand V bm)) in
+      let ch := topk_stable (fun i => nth i cs NegInf) (ncand V bm) (Kout V bm width) in
       ch :: auto_choices V width fus lm len (S t) frames'
               (sstep V width fus lm (Nat.leb len t) nonext blank ch bm)
   end.
